@@ -261,7 +261,8 @@ DOC_EXTRA = [" say \"hi\"", " it's", " a /* b", " x // y", " (paren", " brace}",
 DOC_RARE = [" see C:\\Users"]          # python-docstring-escape: breaks the whole Python file, so it is drawn rarely
 KEY_TAGS = [("case", "content"), ("type", "default"), ("class", "value"), ("kind", "in"), ("from", "import"), ("t", "is")]
 VARIANT_EXTRA = ["Default", "Case", "In", "Is", "Do", "Type", "Any", "_1", "_2nd", "Class1"]
-FIELD_EXTRA = ["inout"]
+# `inout` (Swift label keyword); names that are not keywords themselves but whose snake_case form is a Python keyword
+FIELD_EXTRA = ["inout", "from_", "in_", "as_", "is_", "_while", "class_", "not_", "_if", "lambda_"]
 
 
 def tweak(rng, lang, f, thorough):
